@@ -194,6 +194,10 @@ _HASH_TRANSITIONS: dict[tuple[HashUpdateCause, FileState, bool], tuple[FileState
     (HashUpdateCause.FAILED, FileState.OUTDATED, True): (FileState.OUTDATED, None),
     (HashUpdateCause.FAILED, FileState.PLANNED, True): (FileState.OUTDATED, None),
     (HashUpdateCause.FAILED, FileState.CONFIRMED, False): (FileState.MISSING, "deleted"),
+    # Two steps that were dispatched together both notice that a static input vanished
+    # (or came back): the second report finds the state the first one left behind.
+    (HashUpdateCause.FAILED, FileState.MISSING, False): (FileState.MISSING, None),
+    (HashUpdateCause.FAILED, FileState.MISSING, True): (FileState.CONFIRMED, None),
     (HashUpdateCause.FAILED, FileState.BUILT, False): (FileState.PLANNED, "deleted"),
     (HashUpdateCause.FAILED, FileState.OUTDATED, False): (FileState.PLANNED, None),
     (HashUpdateCause.FAILED, FileState.PLANNED, False): (FileState.PLANNED, None),
